@@ -1,6 +1,7 @@
 (* C20 property theorems (statements only; proofs are `exact`/short compositions of Proofs.v lemmas). *)
 From Coq Require Import List Bool Arith Lia.
 From EP Require Import C20.Model C20.Proofs.
+From EP Require Gen.C20Shape.
 Import ListNotations.
 
 (* the typing walk with its per-content-model cache assigns to every element exactly the type its parent's content
@@ -52,3 +53,9 @@ Proof.
   cbn zeta. split; [intros g d1 d2 H1 H2; cbn in H1, H2; intuition congruence|]. split; [intros g n v H; discriminate|].
   split; [cbn; auto|]. vm_compute. reflexivity.
 Qed.
+
+(* the statements of /repo that the hand model mirrors are present in the source as read on this run (T-data,
+   harness/shape.py -> Gen/C20Shape.v) *)
+Theorem C20_source_shape : Gen.C20Shape.shape_ok = true.
+Proof. reflexivity. Qed.
+Print Assumptions C20_source_shape.
